@@ -88,6 +88,10 @@ func (w *WalletManager) constructTxIn(inputs []*TxIn, lockTime uint64) (*wire.Ms
 			return nil, nil, massutil.ZeroAmount(), ErrInvalidParameter
 		}
 
+		if int64(txIn.PreviousOutPoint.Index) >= int64(len(prevTx.TxOut)) {
+			logging.CPrint(logging.ERROR, "output index does not exist for transaction", logging.LogFormat{"index": txIn.PreviousOutPoint.Index})
+			return nil, nil, massutil.ZeroAmount(), ErrInvalidIndex
+		}
 		prevTxOut := prevTx.TxOut[txIn.PreviousOutPoint.Index]
 		pks, err := utils.ParsePkScript(prevTxOut.PkScript, w.chainParams)
 		if err != nil {
@@ -637,7 +641,7 @@ func (w *WalletManager) signWitnessTx(password []byte, tx *wire.MsgTx, hashType 
 			cache[txIn.PreviousOutPoint.Hash] = prevTx
 		}
 		// check index
-		if txIn.PreviousOutPoint.Index > uint32(len(prevTx.TxOut)-1) {
+		if int64(txIn.PreviousOutPoint.Index) >= int64(len(prevTx.TxOut)) {
 			logging.CPrint(logging.ERROR, "Ouput index number (vout) does not exist for transaction", logging.LogFormat{
 				"index": txIn.PreviousOutPoint.Index,
 			})
